@@ -230,6 +230,48 @@ def object_assignments(ctx):
                                   case, 'gfapy.Error or INVALID marker', w2[1],
                                   python="import gfapy\nl=gfapy.Line(%r,version=%r,vlevel=%d)\nl.set(%r,%r)\nprint(repr(str(l)))" % (text, ver, vl, f, v))
 
+    # plain Python lists assigned to an existing B tag (not NumericArray objects, not text): a list that is no numeric array
+    # (mixed integers and floats, a non-number, no element, an integer beyond 64 bits) is refused at the assignment at
+    # level 3 and reported by validate_field()/validate() at every other level, and not written silently at level 2;
+    # a list that is one is taken at every level
+    BADL = [[1, 2.5], ['a'], [], [2 ** 70], [1, 'x', 2], [0.5, 1]]
+    GOODL = [[1, 2], [1.5, 2.0], [-1, 300], [70000], [0]]
+    for text, ver in (('S\ta\t*\tbb:B:c,1,2', 'gfa1'), ('E\te\ta+\tb-\t0\t4\t6\t10$\t*\tbb:B:f,0.5', 'gfa2'), ('H\tbb:B:S,1', 'gfa1')):
+        for vl in (0, 1, 2, 3):
+            for good, v in [(False, x) for x in BADL] + [(True, x) for x in GOODL]:
+                l = g.Line(text, version=ver, vlevel=vl)
+                case = {'kind': 'object', 'text': text, 'version': ver, 'vlevel': vl, 'field': 'bb', 'value_repr': repr(v)}
+                ctx.count(case, True)
+                py = "import gfapy\nl=gfapy.Line(%r,version=%r,vlevel=%d)\nl.set('bb',%r)\nl.validate_field('bb')\nl.validate()\nprint(repr(str(l)))" % (text, ver, vl, v)
+                r = impl.outcome(lambda: l.set('bb', list(v)))
+                if r[0] != 'ok' and r[1][0] != 'gfapy':
+                    ctx.violation('failing-input', 'assigning the list %r to a B tag raised a foreign exception' % (v,), case, 'gfapy.Error', impl.outcome_name(r), python=py)
+                    continue
+                if good:
+                    rs = [r, impl.outcome(lambda: l.validate_field('bb')), impl.outcome(lambda: l.validate()), impl.outcome(lambda: str(l))]
+                    if any(x[0] != 'ok' for x in rs) or 'INVALID' in rs[3][1]:
+                        ctx.violation('failing-input', 'the valid list %r for a B tag is rejected at level %d' % (v, vl), case, 'accepted',
+                                      [impl.outcome_name(x) for x in rs], python=py)
+                    continue
+                if vl == 3:
+                    if r[0] == 'ok':
+                        ctx.violation('failing-input', 'the list %r, which is no numeric array, is taken for a B tag at level 3' % (v,), case,
+                                      'gfapy.Error at the assignment', 'accepted', python=py)
+                    continue
+                if r[0] != 'ok':
+                    continue                       # refused earlier than required: allowed
+                vf = impl.outcome(lambda: l.validate_field('bb'))
+                va = impl.outcome(lambda: l.validate())
+                if vf[0] == 'ok' or va[0] == 'ok':
+                    ctx.violation('failing-input', 'the list %r assigned to a B tag at level %d is not reported by validate_field()/validate()' % (v, vl),
+                                  case, 'gfapy.Error', [impl.outcome_name(vf), impl.outcome_name(va)], python=py)
+                    continue
+                if vl == 2:
+                    w = impl.outcome(lambda: str(l))
+                    if w[0] == 'ok' and 'INVALID' not in w[1]:
+                        ctx.violation('failing-input', 'the list %r of a B tag is written without error or marker at level 2' % (v,), case,
+                                      'gfapy.Error or INVALID marker', w[1], python=py)
+
 
 def run(ctx, deep, model_ok):
     object_assignments(ctx)
